@@ -60,6 +60,12 @@ def st4_band_integrated_saturation(
         (number_of_frequencies, number_of_directions), dtype="float64"
     )
     integration_width_radians = integration_width_degrees * np.pi / 180
+    # A direction that lies exactly on the edge of the integration band (e.g. +-80
+    # degrees on a 10 degree grid) belongs to the band. Decide this with a tolerance
+    # well above the rounding error of the wrapped angle so that the same relative
+    # bins are selected for every direction (otherwise the result depends on how
+    # the grid is rotated).
+    band_edge_radians = integration_width_radians + 1e-9
 
     for frequency_index in range(number_of_frequencies):
         directional_saturation_spec[frequency_index, :] = (
@@ -79,7 +85,7 @@ def st4_band_integrated_saturation(
                     - radian_direction[direction_index]
                     + np.pi
                 ) % (2 * np.pi) - np.pi
-                if np.abs(mutual_angle) > integration_width_radians:
+                if np.abs(mutual_angle) > band_edge_radians:
                     continue
 
                 integrant += (
